@@ -2667,3 +2667,45 @@ def _oo_open(ex, args, f):
     if good:
         fs.known.insert(0, (stack, True))
     return ok(FileV(args[1])) if good else err(Opaque("io::Error(fs)"))
+
+
+# ---- gather writes: IoSlice, Write::write_vectored (std's default: the first non-empty buffer goes to write()), io::Error::kind ------------
+@intr("IoSlice::new", "std::io::IoSlice::new", "io::IoSlice::new", "IoSlice::<'a>::new")
+def _ioslice_new(ex, args, f):
+    return args[0]
+
+
+@intr("<_ as Write>::write_vectored")
+def _write_vectored(ex, args, f):
+    w = deref_all(ex, args[0])
+    bufs = [as_bytes(ex, b) for b in items_of(ex, args[1])]
+    if isinstance(w, VecV):
+        n = 0
+        for b in bufs:                                  # Vec<u8> takes every buffer
+            w.items += [Int(x, "u8") for x in b]
+            n += len(b)
+        return ok(usize(n))
+    if hasattr(w, "write"):
+        for b in bufs:
+            if b:
+                return w.write(ex, b)
+        return w.write(ex, [])
+    raise Unsupported("write_vectored into %r" % (w,))
+
+
+@intr("std::io::Error::kind", "io::Error::kind", "Error::kind")
+def _io_error_kind(ex, args, f):
+    er = deref_all(ex, args[0])
+    tagname = getattr(er, "tag", "") or ""
+    m = re.search(r"io::Error\((\w+)\)", tagname)
+    if m:
+        return Adt("ErrorKind", {"fs": "Other"}.get(m.group(1), m.group(1)))
+    if isinstance(er, Adt) and er.fields and isinstance(deref_all(ex, er.fields[0]), Tup):
+        return deref_all(ex, er.fields[0]).items[1]
+    raise Unsupported("io::Error::kind of %r" % (er,))
+
+
+@intr("<std::io::ErrorKind as PartialEq>::eq", "<io::ErrorKind as PartialEq>::eq", "<ErrorKind as PartialEq>::eq")
+def _errkind_eq(ex, args, f):
+    a, b = deref_all(ex, args[0]), deref_all(ex, args[1])
+    return Bool(z3.BoolVal(a.variant == b.variant))
